@@ -35,8 +35,8 @@ R2 = (-2, -1, 0, 1, 2)
 DRIVER = 'checks/c13_driver.py'
 
 SIZES = {
-    'quick': dict(n3=6000, n3_exhaustive=False, fam=2, scaled=0.35,
-                  cy=3000, eig_mats=3000, eig_scales=(0, 26, -26, 7, -13),
+    'quick': dict(n3=3000, n3_exhaustive=False, fam=2, scaled=0.35,
+                  cy=2000, eig_mats=1500, eig_scales=(0, 26, -26, 7, -13),
                   eig_aux=800, hl=900, xf=400, design='LinAlg.small.cfg'),
     'thorough': dict(n3=200000, n3_exhaustive=True, fam=30, scaled=0.35,
                      cy=40000, eig_mats=None,
@@ -81,7 +81,7 @@ class Gen(object):
         c['id'] = '%s%d' % (c['kind'], len(self.cases))
         self.cases.append(c)
 
-    def gj(self, fam, A, B, re=None, ce=None, X0=None, form='py'):
+    def gj(self, fam, A, B, re=None, ce=None, X0=None, form='py', den=1):
         n, nb = len(A), len(B[0])
         re = list(re) if re else [0] * n
         ce = list(ce) if ce else [0] * n
@@ -113,7 +113,7 @@ class Gen(object):
                     return
         self.add(dict(kind='gj', fam=fam, form=form, n=n, nb=nb,
                       A=[list(r) for r in A], B=[list(r) for r in B],
-                      re=re, ce=ce, q=q, lim=lim, mode=mode,
+                      re=re, ce=ce, q=q, lim=lim, mode=mode, den=den,
                       X0=[list(r) for r in X0]))
 
     def hl(self, op, n, a, b, na=0, nmax=None, form='py'):
@@ -154,6 +154,147 @@ class Gen(object):
         h = big // 2
         return ([r.randint(-h, h) for i in range(n)],
                 [r.randint(-h, h) for i in range(n)])
+
+
+def fits32(A, B, re):
+    """Input filter: would TLC's 32-bit evaluation of Det (Bareiss, first
+    non-zero pivot), PivotedElim (largest scaled pivot) and Adj stay below
+    2^29?  Simulated with Python integers."""
+    n = len(A)
+    lim = 2 ** 29
+    if any(abs(x) >= lim for r in B for x in r):
+        return False
+
+    def elim(pivoted):
+        M = [list(r) for r in A]
+        e = list(re)
+        prev = 1
+        for k in range(n - 1):
+            rows = [r for r in range(k, n) if M[r][k] != 0]
+            if not rows:
+                return True
+            if pivoted:
+                p = max(rows, key=lambda r: (Fraction(abs(M[r][k]))
+                                             * Fraction(2) ** e[r], -r))
+            else:
+                p = rows[0]
+            M[k], M[p] = M[p], M[k]
+            e[k], e[p] = e[p], e[k]
+            for i in range(k + 1, n):
+                for j in range(k + 1, n):
+                    t1, t2 = M[k][k] * M[i][j], M[i][k] * M[k][j]
+                    if max(abs(t1), abs(t2), abs(t1 - t2)) >= lim:
+                        return False
+                    M[i][j] = (t1 - t2) // prev
+            prev = M[k][k]
+        return True
+
+    def det(M):
+        if len(M) == 1:
+            return M[0][0]
+        return sum((-1) ** j * M[0][j] * det(
+            [r[:j] + r[j + 1:] for r in M[1:]])
+            for j in range(len(M)) if M[0][j])
+    if not (elim(False) and elim(True)):
+        return False
+    for i in range(n):
+        for j in range(n):
+            mn = [r[:j] + r[j + 1:] for k, r in enumerate(A) if k != i]
+            if mn and abs(det(mn)) * n >= lim:
+                return False
+    return True
+
+
+def cond_inf(R):
+    import numpy
+    R = numpy.array(R, dtype=float)
+    return float(numpy.linalg.norm(R, numpy.inf)
+                 * numpy.linalg.norm(numpy.linalg.inv(R), numpy.inf))
+
+
+def pivot_order_family(g, count):
+    """Well-conditioned systems (cond_inf <= 10 up to a uniform power-of-two
+    factor) whose pivot column reads, top to bottom: zero, the large entry
+    (+-3), entries of magnitude <= 1, and last a tiny non-zero entry
+    2^-18 .. 2^-45.  Only the large entry is an acceptable pivot: taking
+    the tiny one loses about tiny^-1 * 2^-53 in accuracy (the entries +-3
+    make the multipliers inexact), or falls under the absolute threshold.
+    Integer solutions: B = A X0.  In TLC's integers the last row is
+    multiplied by 2^k (re[last] = g - k, the other rows re = g); k is
+    limited by 32-bit arithmetic (fits32), which is why the accuracy
+    variant has n <= 4 and the threshold variant (tiny < 2^-40, reached
+    with g < 0) any n."""
+    rng = g.rng
+    made = 0
+    tries = 0
+    while made < count and tries < 200 * count:
+        tries += 1
+        accuracy = rng.random() < 0.6
+        n = rng.randint(3, 4) if accuracy else rng.randint(3, 6)
+        step2 = n >= 4 and rng.random() < 0.25    # structure met at step 2
+        m = n - 1 if step2 else n
+        # row r has its dominant entry +-3 in column dom[r]; row 1 in col 0
+        cols = list(range(1, m))
+        rng.shuffle(cols)
+        dom = [cols[0], 0] + cols[1:]
+        R = [[0] * m for i in range(m)]
+        for r in range(m):
+            R[r][dom[r]] = rng.choice((-3, 3))
+            others = [c for c in range(1, m) if c != dom[r]]
+            for c in rng.sample(others, min(len(others), rng.randint(1, 2))):
+                R[r][c] = rng.choice((-1, 1))
+        for r in range(2, m - 1):
+            if rng.random() < 0.7:
+                R[r][0] = rng.choice((-1, 1))
+        ks = (23, 22, 21, 20, 19, 18) if accuracy else \
+            (20, 18, 16, 14, 12, 10, 8)
+        nbs = rng.choice((1, 1, 2, 3))
+        for k in ks:
+            real = [[Fraction(x) for x in r] for r in R]
+            real[-1][0] = Fraction(1, 2 ** k)
+            A = [list(r) for r in R]
+            A[-1] = [x * 2 ** k for x in R[-1]]
+            A[-1][0] = 1
+            if accuracy:
+                gexp = rng.choice((0, 0, -4, -12))
+            else:
+                gexp = k - rng.randint(41, 45)
+                if gexp < -33:
+                    continue
+            re = [gexp] * m
+            re[-1] = gexp - k
+            if step2:
+                d = rng.choice((-3, 3))
+                A = [[d] + [0] * m] + [[0] + r for r in A]
+                real = [[Fraction(d)] + [Fraction(0)] * m] + \
+                    [[Fraction(0)] + r for r in real]
+                re = [gexp] + re
+            try:
+                if cond_inf(real) > 10:
+                    break
+            except Exception:
+                break
+            # solutions in thirds: X0 / 3 with A X0 divisible by 3, i.e. the
+            # columns of X0 are kernel vectors of A modulo 3
+            ker = [z for z in itertools.product((0, 1, 2), repeat=n)
+                   if any(z) and all(sum(a * b for a, b in zip(r, z)) % 3
+                                     == 0 for r in A)]
+            if not ker:
+                break
+            colsP = []
+            for j in range(nbs):
+                z = rng.choice(ker) if j == 0 or rng.random() < 0.7 \
+                    else (0,) * n
+                colsP.append([v - 3 * rng.randint(0, 1) for v in z])
+            X0 = [[colsP[j][i] for j in range(nbs)] for i in range(n)]
+            AP = matmul(A, X0)
+            B = [[x // 3 for x in r] for r in AP]
+            if exact_solve(A, B) is not None and fits32(A, B, re):
+                fam = 'pivot-order-' + ('acc' if accuracy else 'thr')
+                g.gj(fam, A, B, re=re, X0=X0, den=3)
+                g.gj(fam, A, B, re=re, X0=X0, form='cy', den=3)
+                made += 1
+                break
 
 
 def gj_families(g, sz):
@@ -256,18 +397,20 @@ def gj_families(g, sz):
         X0 = g.mat(n, 1, -2, 2)
         g.gj('tiny-pivot', A, matmul(A, X0), re=[-kk] + [0] * (n - 1),
              X0=X0)
+    pivot_order_family(g, 100 * k)
 
 
 def gj_scaled(g, sz, base):
     """Exact power-of-two row/column scalings of already generated cases
     (the solution of the unscaled integer system is unchanged)."""
     rng = g.rng
+    base = [c for c in base if not c['fam'].startswith('pivot-order')]
     for c in base:
         if c['fam'] == 'tiny-pivot' or rng.random() > sz['scaled']:
             continue
         re, ce = g.scal(c['n'])
         g.gj(c['fam'] + '+scaled', c['A'], c['B'], re=re, ce=ce,
-             X0=c['X0'] if c['mode'] == 'exact' else None)
+             X0=c['X0'] if c['mode'] == 'exact' else None, den=c['den'])
     # uniformly tiny / huge systems (badly scaled in the absolute sense)
     for c in rng.sample(base, min(len(base), 120 * sz['fam'])):
         if c['fam'] == 'tiny-pivot':
@@ -279,7 +422,7 @@ def gj_scaled(g, sz, base):
         else:
             re, ce = [0] * n, [e] * n
         g.gj(c['fam'] + '+extreme', c['A'], c['B'], re=re, ce=ce,
-             X0=c['X0'] if c['mode'] == 'exact' else None)
+             X0=c['X0'] if c['mode'] == 'exact' else None, den=c['den'])
 
 
 def helper_cases(g, sz, form):
@@ -356,10 +499,10 @@ def gen_cases(tier, rng):
     sz = SIZES[tier]
     g = Gen(rng)
     gj_families(g, sz)
-    base = [c for c in g.cases if c['kind'] == 'gj']
+    base = [c for c in g.cases if c['kind'] == 'gj' and c['form'] == 'py']
     gj_scaled(g, sz, base)
     # the transpiled form: a sample of every family through a probe equation
-    allgj = [c for c in g.cases if c['kind'] == 'gj']
+    allgj = [c for c in g.cases if c['kind'] == 'gj' and c['form'] == 'py']
     for c in rng.sample(allgj, min(len(allgj), sz['cy'])):
         c2 = dict(c, form='cy')
         g.add(c2)
@@ -440,16 +583,17 @@ def validate(chk, traces, tag=''):
     files = []
     for kind in ('gj', 'hl', 'eig', 'xf'):
         ts = [t for t in ok if t['kind'] == kind]
-        for i in range(0, len(ts), per_batch):
-            f = os.path.join(sc, '%sbatch-%s-%d.ndjson' % (
-                tag, kind, i // per_batch))
+        # families differ in cost: deal the cases round-robin
+        nb = (len(ts) + per_batch - 1) // per_batch
+        for i in range(nb):
+            f = os.path.join(sc, '%sbatch-%s-%d.ndjson' % (tag, kind, i))
             with open(f, 'w') as fp:
-                for t in ts[i:i + per_batch]:
+                for t in ts[i::nb]:
                     fp.write(json.dumps(t) + '\n')
             files.append(f)
     try:
         verdicts, st = tlc.validate_batches('TraceLinAlg', 'TraceLinAlg.cfg',
-                                            files, parallel=14)
+                                            files, parallel=10)
     except tlc.TLCError as ex:
         raise MachineryError(str(ex))
     if len(verdicts) != len(ok):
@@ -476,12 +620,12 @@ def n3_matrix(index):
 def bulk_case(index):
     return dict(kind='gj', fam='n3-all', form='py', n=3, nb=len(BULK_B[0]),
                 A=n3_matrix(index), B=BULK_B, re=[0, 0, 0], ce=[0, 0, 0],
-                q=BULK_Q, lim=BULK_LIM, mode='resid',
+                q=BULK_Q, lim=BULK_LIM, mode='resid', den=1,
                 X0=[[0] * len(BULK_B[0])] * 3,
                 id='x%d' % index)
 
 
-def run_bulk_n3(chk, stats, nproc=14):
+def run_bulk_n3(chk, stats, nproc=10):
     """All 5^9 3x3 systems with entries in -2..2 and one right-hand side:
     the driver expands index ranges, its trace files go to TLC as they are,
     TLC prints the failing cases and per-class counts."""
@@ -534,6 +678,18 @@ def run_bulk_n3(chk, stats, nproc=14):
 
 
 KNOWN_IDS = ('C13-abs-pivot-tol', 'C13-closed-form-eig')
+
+
+OUTPUTS = ('ret', 'X', 'XF', 'ok', 'r', 'dh', 'dl', 'vh', 'vl', 'error')
+
+
+class CaseView(object):
+    """cases by id, recovered from the traces (a trace = case + outputs)."""
+    def __init__(self, traces):
+        self.traces = traces
+
+    def __getitem__(self, i):
+        return {k: v for k, v in self.traces[i].items() if k not in OUTPUTS}
 
 
 def violation(chk, what, obj):
@@ -593,7 +749,7 @@ def nontrivial(c):
 
 def case_key(c):
     d = {k: v for k, v in c.items() if k not in ('id', 'fam')}
-    return hashlib.sha1(json.dumps(d, sort_keys=True).encode()).hexdigest()
+    return hashlib.sha1(json.dumps(d, sort_keys=True).encode()).digest()[:10]
 
 
 def selftest(chk):
@@ -606,6 +762,7 @@ def selftest(chk):
     by = {c['id']: c for c in cases}
     bad = 0
     for mutant, expect in (('no-exchange', 'violations'),
+                           ('stale-big', 'violations'),
                            ('reltol-fix', 'allclean'),
                            ('matmul-transposed', 'violations'),
                            ('backsub-sign', 'violations'),
@@ -620,7 +777,7 @@ def selftest(chk):
         if expect == 'allclean':
             good = not failed
         elif mutant == 'no-exchange':
-            good = bool(nopiv) and len(nopiv) == len(other)
+            good = bool(nopiv)
         else:
             good = bool(other)
         print('SELFTEST mutant=%s: %d cases, %d failed (%d masked by the '
@@ -656,9 +813,24 @@ def run():
         th = threading.Thread(target=des)
         th.start()
         cases, skipped = gen_cases(chk.tier, rng)
-    by_case = {c['id']: c for c in cases}
+    # accounting over the inputs, then the list is dropped: a trace repeats
+    # every field of its case
+    ncases = len(cases)
+    keys = set(case_key(c) for c in cases if nontrivial(c))
+    dup = set(case_key(c) for c in cases if c['kind'] == 'gj'
+              and c['form'] == 'py' and c['n'] == 3 and c['B'] == BULK_B
+              and c['q'] == BULK_Q and not any(c['re'] + c['ce'])
+              and c['mode'] == 'resid' and nontrivial(c)
+              and all(abs(x) <= 2 for r in c['A'] for x in r))
+    fams = {}
+    for c in cases:
+        k = '%s/%s/%s' % (c['kind'], c.get('form', '-'),
+                          c.get('fam') or c.get('fn') or c.get('op'))
+        fams[k] = fams.get(k, 0) + 1
     t1 = time.time()
     traces, crashed = run_cases(chk, cases)
+    del cases
+    by_case = CaseView(traces)
     t2 = time.time()
     verdicts, st = validate(chk, list(traces.values()))
     t3 = time.time()
@@ -684,30 +856,19 @@ def run():
         note='the property constrains non-singular input only; for singular '
              'input gj_solve returns 0.0 when the last pivot is not exactly '
              '0 after rounding or the last right-hand side is consistent')
-    keys = set(case_key(c) for c in cases if nontrivial(c))
     # the exhaustive n = 3 family: all matrices but the 125 diagonal ones are
     # non-trivial; sampled cases that coincide with one of them count once
     ndist = len(keys)
     if nbulk:
-        dup = set(case_key(c) for c in cases if c['kind'] == 'gj'
-                  and c['form'] == 'py' and c['n'] == 3 and c['B'] == BULK_B
-                  and c['q'] == BULK_Q and not any(c['re'] + c['ce'])
-                  and c['mode'] == 'resid' and nontrivial(c)
-                  and all(abs(x) <= 2 for r in c['A'] for x in r))
         ndist += 5 ** 9 - 125 - len(dup)
-    fams = {}
-    for c in cases:
-        k = '%s/%s/%s' % (c['kind'], c.get('form', '-'),
-                          c.get('fam') or c.get('fn') or c.get('op'))
-        fams[k] = fams.get(k, 0) + 1
     if nbulk:
         fams['gj/py/n3-all'] = nbulk
     vby = {v['id']: v for v in verdicts}
 
     def sample(pred):
-        for c in cases:
-            if pred(c) and c['id'] in traces:
-                return dict(trace=traces[c['id']], verdict=vby.get(c['id']))
+        for c in traces.values():
+            if 'kind' in c and pred(c):
+                return dict(trace=c, verdict=vby.get(c['id']))
         return None
     samples = [s for s in (
         sample(lambda c: c['kind'] == 'gj' and c['n'] == 3
@@ -728,7 +889,7 @@ def run():
         design_model='LinAlgMC.tla with %s' % sz['design'],
         design_result='all invariants hold' if design.get('ok') else 'n/a',
         traces_validated_against_impl=len(verdicts) + nbulk,
-        evaluations=len(cases) + nbulk,
+        evaluations=ncases + nbulk,
         distinct_nontrivial=ndist,
         rule='a case is one call of a real helper on integer data (gj_solve: '
              'matrix, right-hand sides, power-of-two row/column scaling, '
@@ -758,9 +919,17 @@ def run():
         'round(x*2^q) (q <= 20, residual tolerance = quantisation bound + 2 '
         'units), eigen results in two 13-bit limbs at 2^-26 (tolerance 8 '
         'units for the EISPACK routine)',
+        'accuracy clause (integer or thirds solutions, q = 20): the returned '
+        'solution is compared at 2^-40 with tolerance 2 + 16 n^2 |R|max '
+        '|R^-1|max 2^-13 |x|max units, R the real scaled matrix, computed '
+        'by TLC from the adjugate; it resolves a relative error of 1e-9 on '
+        'systems with condition number <= 10',
         'power-of-two scalings are applied and undone exactly by the driver',
-        'tiny leading pivots are covered down to 2^-24 relative to their '
-        'row (limit of 32-bit TLC integers); zero pivots exactly',
+        'tiny entries in the pivot column are representable in TLC only as '
+        'a whole row times 2^-k (k <= 23 for n = 3, 19 for n = 4, less '
+        'beyond: 32-bit integers), combined with a uniform factor 2^g to '
+        'reach 2^-45; pivot-order errors are therefore measured for n <= 4 '
+        'and detected through the singular return for n <= 6',
         'the transpiled form is exercised through one probe equation '
         'compiled by pysph\'s code generator (CPU/Cython backend)',
     ]
